@@ -26,12 +26,12 @@ T_QUICK, T_THOROUGH = 70, 900
 SHARDS = 16
 DTYPES = ["int8", "uint8", "int16", "uint16", "int32", "uint32", "int64", "uint64", "float32", "float64"]
 SCALARS = [xo.Int8, xo.UInt8, xo.Int16, xo.UInt16, xo.Int32, xo.UInt32, xo.Int64, xo.UInt64, xo.Float32, xo.Float64]
-FLOORS = {"primitive_calls": 60000, "grow_relocations": 3000}
+FLOORS = {"primitive_calls": 30000, "grow_relocations": 3000}
 for _k in KINDS:
     for _p in ("update_from_buffer.post_exact", "update_from_native.post_exact", "update_from_nplike.post_exact",
                "copy_to_native.post_exact", "to_bytearray.post_exact", "to_nplike.post_exact"):
         FLOORS[f"contract:{_k}.{_p}"] = 1000
-    FLOORS[f"contract:{_k}.to_native.post_exact"] = 250
+    FLOORS[f"contract:{_k}.to_native.post_exact"] = 100
 FLOORS["suite:runs"] = 1
 FLOORS["suite:contract:numpy.update_from_buffer.post_exact"] = 500
 RULE = ("exhaustive enumeration of (kind, capacity<=10 quick/16 thorough, offset, length, source offset, "
